@@ -551,6 +551,11 @@ fn run() {
     let mut out = std::io::BufWriter::new(out.lock());
     for line in stdin.lock().lines() {
         let line = line.unwrap();
+        if let Some(rest) = line.strip_prefix("threads ") {
+            let s = catch_unwind(AssertUnwindSafe(|| run_threads(rest))).unwrap_or_else(|_| "harness-panic".into());
+            writeln!(out, "{s}").unwrap();
+            continue;
+        }
         let s = match parse_case(&line) {
             None => "bad-case".to_string(),
             Some(case) => {
@@ -563,6 +568,52 @@ fn run() {
         };
         writeln!(out, "{s}").unwrap();
     }
+}
+
+/// `threads <N> <K>`: N threads, each creating K timers through the command API (the Command is polled once so that its
+/// request, which carries the id, is emitted) and K through nothing else; every id handed out in the process must be
+/// different from every other one, whichever thread asked. out: `ids:<ok|dup> n=<count>`
+fn run_threads(rest: &str) -> String {
+    let mut it = rest.split_whitespace();
+    let (Some(n), Some(k)) = (it.next().and_then(|x| x.parse::<usize>().ok()), it.next().and_then(|x| x.parse::<usize>().ok())) else {
+        return "bad-case".into();
+    };
+    let barrier = std::sync::Arc::new(std::sync::Barrier::new(n));
+    let handles: Vec<_> = (0..n)
+        .map(|t| {
+            let barrier = barrier.clone();
+            std::thread::spawn(move || {
+                barrier.wait();
+                let mut ids = vec![];
+                for j in 0..k {
+                    let mut cmd: Command<Effect, Event> = if (t + j) % 2 == 0 {
+                        let (b, _handle) = TimeCmd::<Effect, Event>::notify_after(Duration::from_millis(5));
+                        b.then_send(move |o| Event::Outcome(j, o))
+                    } else {
+                        let (b, _handle) = TimeCmd::<Effect, Event>::notify_at(SystemTime::UNIX_EPOCH + Duration::from_secs(5));
+                        b.then_send(move |o| Event::Outcome(j, o))
+                    };
+                    for e in cmd.effects() {
+                        if let Effect::Time(r) = e {
+                            match &r.operation {
+                                TimeRequest::NotifyAfter { id, .. } | TimeRequest::NotifyAt { id, .. } => ids.push(id.0),
+                                _ => {}
+                            }
+                        }
+                    }
+                }
+                ids
+            })
+        })
+        .collect();
+    let mut all: Vec<usize> = vec![];
+    for h in handles {
+        all.extend(h.join().unwrap());
+    }
+    let count = all.len();
+    all.sort_unstable();
+    all.dedup();
+    format!("ids:{} n={}", if all.len() == count { "ok" } else { "dup" }, count)
 }
 
 // ---------------------------------------------------------------- generators
@@ -790,6 +841,12 @@ fn main() {
                 gen_exh_legacy(args[2].parse().unwrap())
             } else {
                 gen_exh(args[2].parse().unwrap(), host, args.get(4).map(String::as_str).unwrap_or("alt"))
+            }
+        }
+        Some("gen-threads") => {
+            let mut r = Rng::new(args[2].parse().unwrap());
+            for _ in 0..args[3].parse::<usize>().unwrap() {
+                println!("threads {} {}", 2 + r.below(5), 1 + r.below(40));
             }
         }
         Some("run") => run(),
